@@ -26,6 +26,7 @@ func runC09(c *Ctx) {
 	c09Shared(c)
 	c09IdPatch(c)
 	c09UpstreamID(c)
+	c09TimeoutClosesPipelinedConn(c, "UPSTREAMID")
 	c09Lifecycle(c)
 	c09Pool(c)
 	c09PrivateBytes(c)
